@@ -22,7 +22,7 @@ import hashlib
 import os
 import sys
 
-REPO_SRC = os.environ.get("VERIF_REPO_SRC", "/repo/src/aiortc")
+REPO_SRC = os.path.join(os.environ.get("VERIF_REPO", "/repo"), "src", "aiortc")
 HERE = os.path.dirname(os.path.abspath(__file__))
 GEN_DIR = os.path.join(os.path.dirname(HERE), "coq", "Gen")
 
